@@ -11,7 +11,7 @@ import docsim
 import faults as F
 from refmodel import values as V
 
-HOSTILE_HTML = V.PLAIN + '<>&"\' <>&'
+HOSTILE_HTML = V.PLAIN + '<>&"\' <>&%%{}'       # markup characters, and % { } for report lines built by string formatting
 HOSTILE_X12 = V.PLAIN + '~*:^~*:'
 
 
